@@ -753,7 +753,7 @@ static CookieIntent gen_cookie(Rng& r, int mask = -1, bool collide = false) {
         int n = r.range(1, 3);
         for (int i = 0; i < n; i++) {
             std::string k = rnd_token(r, 1, 8, "abcfgijklnoqrtuvwxyzABCFGIJKLNOQRTUVWXYZ0123456789-_");  // cannot start like a known attribute
-            if (collide && i == 0) { static const char* P[] = {"Path", "Domain", "Secure", "HttpOnly", "Max-Age", "Expires", "path", "SECURE"}; k = std::string(r.pick(P)) + rnd_token(r, 1, 4, "xyz019"); c.extCollides = true; }
+            if (collide && i == 0) { static const char* P[] = {"Path", "Domain", "Secure", "HttpOnly", "Max-Age", "Expires", "path", "SECURE"}; k = std::string(r.pick(P)) + rnd_token(r, 1, 4, r.chance(1, 2) ? "xyz019" : "xyz019-_.~!+*"); c.extCollides = true; }   // (the name goes on with letters, digits or other token characters)
             if (attr_prefix_collision(k) && !c.extCollides) continue;
             c.ext[k] = r.chance(1, 4) ? "" : rnd_token(r, 1, 10, CVALCH);
         }
